@@ -71,6 +71,44 @@ var checkC03Fields = register("C03/fields", func(f fieldCase3) string {
 	return ""
 })
 
+// reusedCase3: one object takes the fields of Prev, is scored, then takes the fields of Cur
+// and is scored again — the second score must be Cur's.
+type reusedCase3 struct {
+	Prev fieldCase3 `json:"first_assignment"`
+	Cur  fieldCase3 `json:"second_assignment"`
+}
+
+var checkC03Reused = register("C03/fields-reused", func(r reusedCase3) string {
+	if !inRange3(r.Prev) || !inRange3(r.Cur) {
+		return ""
+	}
+	e := build3(r.Prev)
+	e.Score()
+	e.Severity()
+	bind.SetV3Base(e.Base, r.Cur.Ver, r.Cur.B)
+	bind.SetV3Temporal(e.Temporal, r.Cur.T)
+	bind.SetV3Env(e, r.Cur.E)
+	want := spec.V3Env10(r.Cur.idx())
+	got := e.Score()
+	if k, grid := tenths(got); !grid || k != want {
+		return fmt.Sprintf("after the same object was scored with other field values: environmental score %v, exact FIRST value %d.%d", fmtScore(got), want/10, want%10)
+	}
+	return ""
+})
+
+// c03Mismatch decides a fast-path mismatch on a reused object: a fresh object first; if
+// that is right, the reused object was wrong because of what it was asked before.
+func c03Mismatch(c *ctx, prev, cur fieldCase3, nviol *int) bool {
+	before := *nviol
+	if !evalEnum(c, "fields", cur.withText(), checkC03Fields, nviol) {
+		return false
+	}
+	if *nviol == before {
+		return evalEnum(c, "fields-reused", reusedCase3{Prev: prev.withText(), Cur: cur.withText()}, checkC03Reused, nviol)
+	}
+	return true
+}
+
 var checkC03Decode = register("C03/decode", func(c scoreCase3) string {
 	ref, ok := spec.AcceptV3(c.Input, spec.Environmental)
 	if !ok {
@@ -146,7 +184,7 @@ func c03Classes(f fieldCase3, cl map[string]int64) (nontrivial bool) {
 func TestC03(t *testing.T) {
 	c := begin(t, "C03")
 	defer c.end()
-	c.rec.F.Rule = "layer1 (complete): 2 versions x 64 (CR,IR,AR) x 27 (MC,MI,MA) x 2 (MS) x 48 (MAV,MAC,MPR,MUI) x 100 (E,RL,RC) = 33,177,600 objects with every Modified metric defined and every base metric set to a *different* value, built by assigning exported fields; layer2: the version x base x environmental product (11,466,178,560 points; quick: 3,000,000 points chosen by an affine permutation of the index space seeded by VERIF_SEED, distinct by construction; thorough: complete), temporal metrics chosen by a hash of the index; layer3: rapid well-formed environmental vectors through Decode (random order, omission, explicit X). Non-trivial: layer1 all with modified impact > 0; layer2 at least one Modified metric X (falls back to the base value) and at least one defined; layer3 at least one environmental metric defined."
+	c.rec.F.Rule = "layer1 (complete): 2 versions x 64 (CR,IR,AR) x 27 (MC,MI,MA) x 2 (MS) x 48 (MAV,MAC,MPR,MUI) x 100 (E,RL,RC) = 33,177,600 objects with every Modified metric defined and every base metric set to a *different* value, built by assigning exported fields; layer2: the version x base x environmental product (11,466,178,560 points; quick: 3,000,000 points chosen by a seeded pseudo-random bijection (Feistel network) of the index space, distinct by construction; thorough: complete), temporal metrics chosen by a hash of the index; layer3: rapid well-formed environmental vectors through Decode (random order, omission, explicit X). Non-trivial: layer1 all with modified impact > 0; layer2 at least one Modified metric X (falls back to the base value) and at least one defined; layer3 at least one environmental metric defined."
 	c.rec.F.Assumptions = []string{"reference model: exact rational MISS with 0.915 cap, version-specific changed-scope polynomial, exact exploitability with PR weights by effective scope, double Roundup (harness/spec)", "objects built from the exported constructor plus exported-field assignment, as property C03 allows"}
 
 	// ---- layer 1 ---------------------------------------------------------------------
@@ -157,6 +195,7 @@ func TestC03(t *testing.T) {
 		e := m3.NewEnvironmental()
 		idx := 0
 		done := false
+		var prev fieldCase3
 		for ver := 0; ver < 2 && !done; ver++ {
 			for cr := 0; cr < 4 && !done; cr++ {
 				for ir := 0; ir < 4 && !done; ir++ {
@@ -192,10 +231,11 @@ func TestC03(t *testing.T) {
 																	got := e.Score()
 																	evals++
 																	if got != float64(want)/10 {
-																		if !evalEnum(c, "fields", f.withText(), checkC03Fields, &nviol) {
+																		if !c03Mismatch(c, prev, f, &nviol) {
 																			done = true
 																		}
 																	}
+																	prev = f
 																}
 															}
 														}
@@ -227,6 +267,7 @@ func TestC03(t *testing.T) {
 		cl := map[string]int64{}
 		nviol := 0
 		e := m3.NewEnvironmental()
+		var prev fieldCase3
 		run := func(n uint64) bool {
 			f := fromLayer2Index(n)
 			h := mix(uint64(seed), n)
@@ -255,8 +296,11 @@ func TestC03(t *testing.T) {
 				nt++
 			}
 			if got != float64(want)/10 {
-				return evalEnum(c, "fields", f.withText(), checkC03Fields, &nviol)
+				ok := c03Mismatch(c, prev, f, &nviol)
+				prev = f
+				return ok
 			}
+			prev = f
 			if c.rec.SampleCount() < 6 && evals%100003 == 7 {
 				c.rec.Sample(f.withText())
 			}
@@ -280,10 +324,9 @@ func TestC03(t *testing.T) {
 			}
 		} else {
 			total := uint64(3000000)
-			const a = 1000000007 // prime, coprime to the index space (whose prime factors are 2, 3, 5)
-			b := mix(uint64(seed), 0xc03) % layer2Space
+			key := mix(uint64(seed), 0xc03)
 			for k := uint64(shard); k < total; k += uint64(shards) {
-				n := (a*k + b) % layer2Space
+				n := permIndex(k, layer2Space, key)
 				if !run(n) {
 					break
 				}
